@@ -1,5 +1,6 @@
 import GqlVerif.Base.Json
 import Driver.C16
+import Driver.C05
 open GqlVerif GqlVerif.Driver
 
 /-- dispatch one request; unknown op → `unsupported` -/
@@ -7,6 +8,8 @@ def dispatch (op : String) (args : Json) : Option Json :=
   match op with
   | "ping" => some (.obj [("pong", .bool true)])
   | "c16.ttl" => some (c16ttl args)
+  | "c05.lex" => some (c05lex args)
+  | "c05.limits" => some (c05limits args)
   | _ => none
 
 def handleLine (line : String) : String :=
